@@ -62,6 +62,15 @@ func runC18(c *Ctx) {
 		j := c.T.Choose(i + 1)
 		spelled[i], spelled[j] = spelled[j], spelled[i]
 	}
+	joined := false
+	if len(spelled) >= 2 && !keyFocus && c.T.Bool(1, 8) {
+		// the mechanisms written as ONE comma separated item: that is not a list of mechanisms
+		// but one unknown name, so none of them is enabled; whatever the gateway makes of it,
+		// the invariants on what it actually serves (below) hold
+		spelled = []string{strings.Join(spelled, ",")}
+		mechs = nil
+		joined = true
+	}
 	cfg := env.BaseConfig()
 	cfg.Authentication = spelled
 	cfg.OmitKeys = map[string]bool{}
@@ -206,6 +215,39 @@ func runC18(c *Ctx) {
 		c.S.Fail("C18", "local-authentication-served-without-tls", "%s: the gateway serves local (basic) authentication over plain HTTP", descr)
 		return
 	}
+	if !g.Exited && g.Server != nil {
+		// what the instance actually serves, read off the challenges of its gateway endpoint
+		req := &env.HTTPReq{Name: "probe", From: "10.2.0.250:50999", Method: "RDG_OUT_DATA", Path: "/remoteDesktopGateway/", Header: [][2]string{{"Rdg-Connection-Id", "{C18-PROBE}"}}}
+		var pr *env.HTTPResult
+		if g.TLS {
+			pr = c.W.DoTLS(req, true)
+		} else {
+			pr = c.W.Do(req)
+		}
+		if pr != nil && pr.Header != nil {
+			ntlm, basic, neg := false, false, 0
+			for _, v := range pr.Header.Values("Www-Authenticate") {
+				switch {
+				case v == "NTLM":
+					ntlm = true
+				case strings.HasPrefix(v, "Negotiate"):
+					neg++
+				case strings.HasPrefix(v, "Basic"):
+					basic = true
+				}
+			}
+			kerberos := neg > 1 || (neg == 1 && !ntlm)
+			if basic && !g.TLS {
+				c.S.Fail("C18", "local-authentication-served-without-tls", "%s: the gateway endpoint challenges for Basic credentials over plain HTTP", descr)
+				return
+			}
+			if ntlm && kerberos {
+				c.S.Fail("C18", "unsafe-config-started:ntlm-and-kerberos-together", "%s: the gateway endpoint challenges for NTLM and for Kerberos: both mechanisms are enabled", descr)
+				return
+			}
+		}
+	}
+	_ = joined
 	if entropyFault {
 		// fresh random keys cannot be made: the only compliant outcomes are not to run, or to
 		// run without issuing anything that depends on a substituted key
